@@ -1103,6 +1103,9 @@ func callBuiltin(caller *frame, callpos token.Pos, fn *ssa.Builtin, args []value
 	case "delete": // delete(map[K]value, K)
 		switch m := args[0].(type) {
 		case *omap:
+			if m != nil && race != nil && race.on && EX.RaceCheck {
+				race.write(caller, m, callpos)
+			}
 			m.delete(args[1])
 		default:
 			panic(fmt.Sprintf("illegal map type: %T", m))
@@ -1135,6 +1138,9 @@ func callBuiltin(caller *frame, callpos token.Pos, fn *ssa.Builtin, args []value
 		case []value:
 			return len(x)
 		case *omap:
+			if x != nil && race != nil && race.on && EX.RaceCheck {
+				race.read(caller, x, callpos)
+			}
 			return x.len()
 		case *symchan:
 			return x.length()
